@@ -171,6 +171,10 @@ func (c *Cache) Total() (weight uint, num int) {
 
 // Resize changes the cache size.
 func (c *Cache) Resize(maxWeight uint, maxSize int) (evicted int) {
+	if maxSize < 0 {
+		// a negative size can never be satisfied: normalize would spin forever
+		maxSize = 0
+	}
 	c.maxWeight = maxWeight
 	c.maxSize = maxSize
 	return c.normalize()
